@@ -9,7 +9,8 @@ import torch
 
 from tjv.rt import gen
 from tjv.rt.aggs import make_agg
-from ._autojac import AGG_TOL, choose_inputs, expected_update, n_rows, selection_ambiguous, set_pregrads
+from ._autojac import (AGG_TOL, choose_inputs, expected_update, increase_ok, n_rows, reach_scales,
+                       selection_ambiguous, set_pregrads)
 
 RULE = ("random autograd programs (tjv.rt.gen.build: DAGs with reuse, unused leaves, leaves not requiring "
         "grad, 0-d..4-d shapes, multi-output unbind) x aggregator x parallel_chunk_size x dtype x pre-existing "
@@ -35,6 +36,7 @@ AGGS = [
 def cases(tier, seed, focus=None):
     n = 200 if tier == "quick" else 5000
     rng = random.Random(1000 + seed)
+    rng2 = random.Random(1001000 + seed)
     for i in range(n):
         case = {
             "prog": {"seed": rng.randrange(10**9), "n_leaves": rng.randint(1, 5), "n_ops": rng.randint(2, 9),
@@ -51,7 +53,41 @@ def cases(tier, seed, focus=None):
         if i % 5 == 4:  # zero-element output tensor(s) next to the non-empty ones
             case["zero_out"] = [{"pos": rng.randrange(4), "shape": rng.choice(["0", "2x0"]), "src": rng.randrange(8)}
                                 for _ in range(rng.choice([1, 1, 2]))]
+        # later families draw from a stream of their own (the cases above are those of the earlier versions)
+        r2 = random.Random(rng2.randrange(10**9))
+        case["out_scales"] = None
+        if i % 4 == 3:  # tiny / huge Jacobians: the outputs are multiplied by constants
+            if r2.random() < 0.6:
+                case["out_scales"] = [r2.choice(SCALES)] * 3
+            else:
+                case["out_scales"] = [r2.choice(SCALES + [1.0, 1.0]) for _ in range(3)]
+            case["pre"] = r2.choice(["zeros", "zeros", "all", "some", "all_unscaled", "none"])
+            case["agg"] = SCALE_FREE_AGGS[(i // 4) % len(SCALE_FREE_AGGS)]
+        if i % 4 == 1:  # chunk sizes just below the number of rows / larger constants; one-shot iterators
+            case["chunk"] = r2.choice(["R-1", "R-1", "R-2", 4, 5])
+            case["inputs_as"] = r2.choice(["iter", "gen", "list", "tuple"])
+            case["pre"] = r2.choice(["none", "some", "all", "zeros"])
         yield case
+
+
+SCALES = [1e-12, 1e-9, 1e-9, 1e-6, 1e6, 1e9]
+# aggregators whose result is a per-column function of the Jacobian (a tiny column block gives a tiny slice whose
+# error is relative to that block); the others either normalise / regularise with absolute constants or are tested
+# for ties with absolute gaps
+SCALE_FREE_AGGS = [
+    {"name": "Mean"},
+    {"name": "Constant", "kind": "distinct"},
+    {"name": "Sum"},
+    {"name": "Constant", "kind": "signed", "wseed": 3},
+    {"name": "TrimmedMean", "b": 1},
+]
+
+
+def _scale_outputs(prog, out_scales):
+    """Multiplies output number o by out_scales[o] (same construction on both twins)."""
+    if out_scales:
+        prog.outputs = [o * out_scales[j % len(out_scales)] for j, o in enumerate(prog.outputs)]
+        prog.desc.append("SCALE:" + ",".join(f"{out_scales[j % len(out_scales)]:g}" for j in range(len(prog.outputs))))
 
 
 def _add_zero_outputs(prog, zero_out):
@@ -75,6 +111,8 @@ def _present(inputs, how):
         return set(inputs)
     if how == "gen":
         return (t for t in inputs)
+    if how == "iter":
+        return iter(list(inputs))
     return list(inputs)
 
 
@@ -93,22 +131,27 @@ def _run_case(case):
     from torchjd import backward
 
     p1, p2 = gen.build(case["prog"]), gen.build(case["prog"])
+    _scale_outputs(p1, case.get("out_scales"))
+    _scale_outputs(p2, case.get("out_scales"))
     _add_zero_outputs(p1, case.get("zero_out"))
     _add_zero_outputs(p2, case.get("zero_out"))
     m = n_rows(p1.outputs)
     dtype = p1.outputs[0].dtype
     agg = make_agg(case["agg"], m, dtype)
-    sig = "|".join(p1.desc) + f"|{case['agg']}|{case['chunk']}|{case['inputs']}{case['sel_seed']}|{case.get('inputs_as')}"
+    sig = ("|".join(p1.desc) + f"|{case['agg']}|{case['chunk']}|{case['inputs']}{case['sel_seed']}|"
+           f"{case.get('inputs_as')}|{case['pre']}")
     if agg is None:
         return {"ok": True, "sig": sig, "nontrivial": False, "note": "row requirement not met"}
     idx = choose_inputs(p1, case["sel_seed"], case["inputs"])
     chunk = case["chunk"]
-    if chunk == "R":
-        chunk = m
-    elif chunk == "R+1":
-        chunk = m + 1
-    set_pregrads(p1.leaves, case["sel_seed"], case["pre"])
-    set_pregrads(p2.leaves, case["sel_seed"], case["pre"])
+    if isinstance(chunk, str):
+        chunk = max(1, m + {"R": 0, "R+1": 1, "R-1": -1, "R-2": -2}[chunk])
+    pre_mode, pre_scale = case["pre"], 1.0
+    if case.get("out_scales") and pre_mode in ("all", "some"):  # pre-existing .grad of the magnitude of the update
+        pre_scale = min(case["out_scales"][j % len(case["out_scales"])] for j in range(case["prog"]["n_outputs"]))
+    pre_mode = "all" if pre_mode == "all_unscaled" else pre_mode
+    set_pregrads(p1.leaves, case["sel_seed"], pre_mode, pre_scale)
+    set_pregrads(p2.leaves, case["sel_seed"], pre_mode, pre_scale)
     before = [None if t.grad is None else t.grad.clone() for t in p2.leaves]
     inputs1 = [p1.grad_leaves[i] for i in idx]
     try:
@@ -126,16 +169,17 @@ def _run_case(case):
     if selection_ambiguous(case["agg"], J):  # ties are excluded: the selected rows depend on rounding
         return {"ok": True, "sig": sig, "nontrivial": False, "note": "Krum scores tie"}
     sel = {id(p1.grad_leaves[i]): k for k, i in enumerate(idx)}
+    scales = reach_scales(J, [p2.grad_leaves[i] for i in idx])
     for li, (t1, t2) in enumerate(zip(p1.leaves, p2.leaves)):
         pre = before[li]
         if id(t1) in sel:
             upd = exp[sel[id(t1)]]
             want = upd if pre is None else pre + upd
-            if t1.grad is None or not gen.close(t1.grad, want, rtol, atol):
+            if not increase_ok(t1.grad, pre, upd, rtol, atol, scales[sel[id(t1)]]):
                 return {"ok": False, "sig": sig, "nontrivial": nontrivial, "key": "C01.value",
-                        "what": f"input leaf {li}: .grad differs from pre + slice of A(J_ref)",
+                        "what": f"input leaf {li}: the increase of .grad differs from the leaf's slice of A(J_ref)",
                         "observed": None if t1.grad is None else t1.grad.tolist(), "expected": want.tolist(),
-                        "J_ref": J.tolist()}
+                        "previous": None if pre is None else pre.tolist(), "J_ref": J.tolist()}
         else:
             same = (t1.grad is None and pre is None) or (t1.grad is not None and pre is not None and torch.equal(t1.grad, pre))
             if not same:
